@@ -270,6 +270,7 @@ pzgstrf_MemInit(int_t n, int_t annz, superlumt_options_t *superlumt_options,
     doublecomplex   *ucol;
     int_t      *usub, *xusub, *xusub_end;
     int_t      nzlmax, nzumax, nzlumax;
+    int_t      top1_mark = 0;
     int_t      FILL_LUSUP = sp_ienv(6); /* Guess the fill-in growth for LUSUP */
     int_t      FILL_UCOL = sp_ienv(7); /* Guess the fill-in growth for UCOL */
     int_t      FILL_LSUB = sp_ienv(8); /* Guess the fill-in growth for LSUB */
@@ -329,6 +330,8 @@ pzgstrf_MemInit(int_t n, int_t annz, superlumt_options_t *superlumt_options,
 	}
 
 	lusup = (doublecomplex *) pzgstrf_expand( &nzlumax, LUSUP, 0, 0, Glu );
+	/* ucol, lsub, usub are released together when a request fails */
+	top1_mark = stack.top1;
 	ucol  = (doublecomplex *) pzgstrf_expand( &nzumax, UCOL, 0, 0, Glu );
 	lsub  = (int_t *)    pzgstrf_expand( &nzlmax, LSUB, 0, 0, Glu );
 	usub  = (int_t *)    pzgstrf_expand( &nzumax, USUB, 0, 1, Glu );
@@ -343,7 +346,9 @@ pzgstrf_MemInit(int_t n, int_t annz, superlumt_options_t *superlumt_options,
 		SUPERLU_FREE(lsub);
 		SUPERLU_FREE(usub);
 	    } else {
-		zuser_free(nzumax*dword+(nzlmax+nzumax)*iword, HEAD);
+		/* only what the successful requests took (with their
+		   alignment padding); a refused request took nothing */
+		zuser_free(stack.top1 - top1_mark, HEAD);
 	    }
 	    nzumax /= 2;    /* reduce request */
 	    nzlmax /= 2;
